@@ -938,7 +938,8 @@ def rule_text(tier: str) -> str:
         "200 + default; parameters / requestBody by $ref; path-level parameters, summary, description, servers; x- extensions, deprecated, "
         "externalDocs; operation-level servers / security / empty lists), pairs in thorough; L LONG names (64..160 characters, thorough every 8 "
         "from 48 to 168) for what ends up in signatures - return-type / body models, a parameter name, the operationId + an inline response "
-        "schema (promoted to <OperationId>200Response) - x kinds plain, multi, sse, ndjson, longsig, next to a short control operation.  Every document is generated on the force path (the only path that writes output) "
+        "schema (promoted to <OperationId>200Response) - x kinds plain, multi, sse, ndjson, longsig, next to a short control operation; S two spellings of one tag inside ONE operation's tag list (every ordered pair of six case / "
+        "separator variants) alone and next to an operation that uses one of them alone.  Every document is generated on the force path (the only path that writes output) "
         "and observed once; non-trivial = judged document with >= 2 (operation, tag class) pairs (C07) / with mock methods compared (C13)"
     )
 
